@@ -80,7 +80,7 @@ pub fn directed() -> Vec<Program> {
     out.push(prog(vec![op("Animals", vec![Sel::obj("animals", vec![t(), fld("id"), on("Dog", vec![fld("barks")])]), Sel::obj("pet", vec![t(), on("Cat", vec![fld("lives"), fld("born")])])])], |o| { o.fragments_other_variant = true; o.normalization_rust = true; }));
     // 3. named fragments: on the interface itself (flattened), on a variant, nested spreads
     out.push(prog(vec![
-        frag("AnimalBits", "Animal", vec![fld("id"), fld("name")]),
+        frag("AnimalBits", "Animal", vec![t(), fld("id"), fld("name")]),
         frag("DogBits", "Dog", vec![fld("barks"), sp("AnimalBits")]),
         frag("Owner", "Person", vec![fld("name"), Sel::obj("pets", vec![t(), sp("AnimalBits")])]),
         op("Frags", vec![Sel::obj("animals", vec![t(), sp("AnimalBits"), sp("DogBits"), on("Cat", vec![fld("lives")])]), Sel::obj("me", vec![sp("Owner"), fld("tags"), fld("ids")]), Sel::obj("dog", vec![sp("DogBits"), Sel::obj("owner", vec![sp("Owner")])])]),
